@@ -12,7 +12,7 @@
 (* AMD, AMDX, ARM, QCOM ...) that the specification merely reserves are    *)
 (* "don't care": no property constrains how they are classified.           *)
 (***************************************************************************)
-EXTENDS Integers, Sequences, FiniteSets, Grammar
+EXTENDS Integers, Sequences, FiniteSets, TLC, Grammar
 
 \* 3.52.6 Type-Declaration Instructions (core, KHR, EXT)
 TypeNames == {"TypeVoid", "TypeBool", "TypeInt", "TypeFloat", "TypeVector", "TypeMatrix", "TypeImage", "TypeSampler",
@@ -103,6 +103,136 @@ SectionOfClass(c) ==
     [] c = "Annot" -> "annotations" [] c = "TypeConst" -> "types_global_values"
 
 ModuleLevelClasses == {"Cap", "Ext", "Import", "MemModel", "Entry", "ExecMode", "DbgStr", "DbgName", "ModProc", "Annot", "TypeConst"}
+
+
+---------------------------------------------------------------------------
+(* Hand-transcribed anchors: instruction numbers and operand layouts of core SPIR-V 1.0
+   instructions (specification section 3.52), and numeric values of well-known enumerants
+   (3.2 - 3.31).  The pinned grammar snapshot must agree with them (TablesTrace!AnchorsAgree),
+   and every table entry of the tree with an anchor is compared with it directly. *)
+RT == <<"IdResultType", "One">>     R == <<"IdResult", "One">>
+Id1 == <<"IdRef", "One">>   IdOpt == <<"IdRef", "ZeroOrOne">>   IdMany == <<"IdRef", "ZeroOrMore">>
+Int1 == <<"LiteralInteger", "One">>   Str1 == <<"LiteralString", "One">>
+E1(k) == <<k, "One">>   EOpt(k) == <<k, "ZeroOrOne">>
+A(op, ops) == <<op, ops>>
+InstAnchors ==
+  [n \in {} |-> <<>>]
+  @@ ("Nop" :> A(0, <<>>)) @@ ("Undef" :> A(1, <<RT, R>>)) @@ ("SourceContinued" :> A(2, <<Str1>>))
+  @@ ("Source" :> A(3, <<E1("SourceLanguage"), Int1, IdOpt, <<"LiteralString", "ZeroOrOne">>>>))
+  @@ ("SourceExtension" :> A(4, <<Str1>>)) @@ ("Name" :> A(5, <<Id1, Str1>>)) @@ ("MemberName" :> A(6, <<Id1, Int1, Str1>>))
+  @@ ("String" :> A(7, <<R, Str1>>)) @@ ("Line" :> A(8, <<Id1, Int1, Int1>>)) @@ ("Extension" :> A(10, <<Str1>>))
+  @@ ("ExtInstImport" :> A(11, <<R, Str1>>)) @@ ("ExtInst" :> A(12, <<RT, R, Id1, E1("LiteralExtInstInteger"), IdMany>>))
+  @@ ("MemoryModel" :> A(14, <<E1("AddressingModel"), E1("MemoryModel")>>))
+  @@ ("EntryPoint" :> A(15, <<E1("ExecutionModel"), Id1, Str1, IdMany>>))
+  @@ ("ExecutionMode" :> A(16, <<Id1, E1("ExecutionMode")>>)) @@ ("Capability" :> A(17, <<E1("Capability")>>))
+  @@ ("TypeVoid" :> A(19, <<R>>)) @@ ("TypeBool" :> A(20, <<R>>)) @@ ("TypeInt" :> A(21, <<R, Int1, Int1>>))
+  @@ ("TypeVector" :> A(23, <<R, Id1, Int1>>)) @@ ("TypeMatrix" :> A(24, <<R, Id1, Int1>>))
+  @@ ("TypeImage" :> A(25, <<R, Id1, E1("Dim"), Int1, Int1, Int1, Int1, E1("ImageFormat"), EOpt("AccessQualifier")>>))
+  @@ ("TypeSampler" :> A(26, <<R>>)) @@ ("TypeSampledImage" :> A(27, <<R, Id1>>)) @@ ("TypeArray" :> A(28, <<R, Id1, Id1>>))
+  @@ ("TypeRuntimeArray" :> A(29, <<R, Id1>>)) @@ ("TypeStruct" :> A(30, <<R, IdMany>>)) @@ ("TypeOpaque" :> A(31, <<R, Str1>>))
+  @@ ("TypePointer" :> A(32, <<R, E1("StorageClass"), Id1>>)) @@ ("TypeFunction" :> A(33, <<R, Id1, IdMany>>))
+  @@ ("TypeEvent" :> A(34, <<R>>)) @@ ("TypeDeviceEvent" :> A(35, <<R>>)) @@ ("TypeReserveId" :> A(36, <<R>>)) @@ ("TypeQueue" :> A(37, <<R>>))
+  @@ ("TypePipe" :> A(38, <<R, E1("AccessQualifier")>>)) @@ ("TypeForwardPointer" :> A(39, <<Id1, E1("StorageClass")>>))
+  @@ ("ConstantTrue" :> A(41, <<RT, R>>)) @@ ("ConstantFalse" :> A(42, <<RT, R>>))
+  @@ ("Constant" :> A(43, <<RT, R, E1("LiteralContextDependentNumber")>>)) @@ ("ConstantComposite" :> A(44, <<RT, R, IdMany>>))
+  @@ ("ConstantSampler" :> A(45, <<RT, R, E1("SamplerAddressingMode"), Int1, E1("SamplerFilterMode")>>))
+  @@ ("ConstantNull" :> A(46, <<RT, R>>)) @@ ("SpecConstantTrue" :> A(48, <<RT, R>>)) @@ ("SpecConstantFalse" :> A(49, <<RT, R>>))
+  @@ ("SpecConstant" :> A(50, <<RT, R, E1("LiteralContextDependentNumber")>>)) @@ ("SpecConstantComposite" :> A(51, <<RT, R, IdMany>>))
+  @@ ("SpecConstantOp" :> A(52, <<RT, R, E1("LiteralSpecConstantOpInteger")>>))
+  @@ ("Function" :> A(54, <<RT, R, E1("FunctionControl"), Id1>>)) @@ ("FunctionParameter" :> A(55, <<RT, R>>))
+  @@ ("FunctionEnd" :> A(56, <<>>)) @@ ("FunctionCall" :> A(57, <<RT, R, Id1, IdMany>>))
+  @@ ("Variable" :> A(59, <<RT, R, E1("StorageClass"), IdOpt>>)) @@ ("ImageTexelPointer" :> A(60, <<RT, R, Id1, Id1, Id1>>))
+  @@ ("Load" :> A(61, <<RT, R, Id1, EOpt("MemoryAccess")>>)) @@ ("Store" :> A(62, <<Id1, Id1, EOpt("MemoryAccess")>>))
+  @@ ("CopyMemory" :> A(63, <<Id1, Id1, EOpt("MemoryAccess"), EOpt("MemoryAccess")>>))
+  @@ ("AccessChain" :> A(65, <<RT, R, Id1, IdMany>>)) @@ ("InBoundsAccessChain" :> A(66, <<RT, R, Id1, IdMany>>))
+  @@ ("Decorate" :> A(71, <<Id1, E1("Decoration")>>)) @@ ("MemberDecorate" :> A(72, <<Id1, Int1, E1("Decoration")>>))
+  @@ ("DecorationGroup" :> A(73, <<R>>)) @@ ("GroupDecorate" :> A(74, <<Id1, IdMany>>))
+  @@ ("GroupMemberDecorate" :> A(75, <<Id1, <<"PairIdRefLiteralInteger", "ZeroOrMore">>>>))
+  @@ ("VectorExtractDynamic" :> A(77, <<RT, R, Id1, Id1>>)) @@ ("VectorShuffle" :> A(79, <<RT, R, Id1, Id1, <<"LiteralInteger", "ZeroOrMore">>>>))
+  @@ ("CompositeConstruct" :> A(80, <<RT, R, IdMany>>)) @@ ("CompositeExtract" :> A(81, <<RT, R, Id1, <<"LiteralInteger", "ZeroOrMore">>>>))
+  @@ ("CompositeInsert" :> A(82, <<RT, R, Id1, Id1, <<"LiteralInteger", "ZeroOrMore">>>>)) @@ ("CopyObject" :> A(83, <<RT, R, Id1>>))
+  @@ ("Transpose" :> A(84, <<RT, R, Id1>>)) @@ ("ConvertFToU" :> A(109, <<RT, R, Id1>>)) @@ ("Bitcast" :> A(124, <<RT, R, Id1>>))
+  @@ ("SNegate" :> A(126, <<RT, R, Id1>>)) @@ ("IAdd" :> A(128, <<RT, R, Id1, Id1>>)) @@ ("FAdd" :> A(129, <<RT, R, Id1, Id1>>))
+  @@ ("ISub" :> A(130, <<RT, R, Id1, Id1>>)) @@ ("FSub" :> A(131, <<RT, R, Id1, Id1>>)) @@ ("IMul" :> A(132, <<RT, R, Id1, Id1>>))
+  @@ ("FMul" :> A(133, <<RT, R, Id1, Id1>>)) @@ ("Dot" :> A(148, <<RT, R, Id1, Id1>>)) @@ ("Select" :> A(169, <<RT, R, Id1, Id1, Id1>>))
+  @@ ("IEqual" :> A(170, <<RT, R, Id1, Id1>>)) @@ ("ControlBarrier" :> A(224, <<E1("IdScope"), E1("IdScope"), E1("IdMemorySemantics")>>))
+  @@ ("MemoryBarrier" :> A(225, <<E1("IdScope"), E1("IdMemorySemantics")>>))
+  @@ ("AtomicLoad" :> A(227, <<RT, R, Id1, E1("IdScope"), E1("IdMemorySemantics")>>))
+  @@ ("Phi" :> A(245, <<RT, R, <<"PairIdRefIdRef", "ZeroOrMore">>>>)) @@ ("LoopMerge" :> A(246, <<Id1, Id1, E1("LoopControl")>>))
+  @@ ("SelectionMerge" :> A(247, <<Id1, E1("SelectionControl")>>)) @@ ("Label" :> A(248, <<R>>)) @@ ("Branch" :> A(249, <<Id1>>))
+  @@ ("BranchConditional" :> A(250, <<Id1, Id1, Id1, <<"LiteralInteger", "ZeroOrMore">>>>))
+  @@ ("Switch" :> A(251, <<Id1, Id1, <<"PairLiteralIntegerIdRef", "ZeroOrMore">>>>)) @@ ("Kill" :> A(252, <<>>)) @@ ("Return" :> A(253, <<>>))
+  @@ ("ReturnValue" :> A(254, <<Id1>>)) @@ ("Unreachable" :> A(255, <<>>)) @@ ("LifetimeStart" :> A(256, <<Id1, Int1>>))
+  @@ ("LifetimeStop" :> A(257, <<Id1, Int1>>)) @@ ("NoLine" :> A(317, <<>>)) @@ ("ModuleProcessed" :> A(330, <<Str1>>))
+  @@ ("ExecutionModeId" :> A(331, <<Id1, E1("ExecutionMode")>>)) @@ ("DecorateId" :> A(332, <<Id1, E1("Decoration")>>))
+
+EnumAnchors == {
+  <<"SourceLanguage", "Unknown", 0>>, <<"SourceLanguage", "ESSL", 1>>, <<"SourceLanguage", "GLSL", 2>>, <<"SourceLanguage", "OpenCL_C", 3>>,
+  <<"SourceLanguage", "OpenCL_CPP", 4>>, <<"SourceLanguage", "HLSL", 5>>,
+  <<"ExecutionModel", "Vertex", 0>>, <<"ExecutionModel", "TessellationControl", 1>>, <<"ExecutionModel", "TessellationEvaluation", 2>>,
+  <<"ExecutionModel", "Geometry", 3>>, <<"ExecutionModel", "Fragment", 4>>, <<"ExecutionModel", "GLCompute", 5>>, <<"ExecutionModel", "Kernel", 6>>,
+  <<"AddressingModel", "Logical", 0>>, <<"AddressingModel", "Physical32", 1>>, <<"AddressingModel", "Physical64", 2>>,
+  <<"AddressingModel", "PhysicalStorageBuffer64", 5348>>,
+  <<"MemoryModel", "Simple", 0>>, <<"MemoryModel", "GLSL450", 1>>, <<"MemoryModel", "OpenCL", 2>>, <<"MemoryModel", "Vulkan", 3>>,
+  <<"ExecutionMode", "Invocations", 0>>, <<"ExecutionMode", "OriginUpperLeft", 7>>, <<"ExecutionMode", "OriginLowerLeft", 8>>,
+  <<"ExecutionMode", "EarlyFragmentTests", 9>>, <<"ExecutionMode", "DepthReplacing", 12>>, <<"ExecutionMode", "LocalSize", 17>>,
+  <<"ExecutionMode", "LocalSizeHint", 18>>, <<"ExecutionMode", "OutputVertices", 26>>, <<"ExecutionMode", "LocalSizeId", 38>>,
+  <<"StorageClass", "UniformConstant", 0>>, <<"StorageClass", "Input", 1>>, <<"StorageClass", "Uniform", 2>>, <<"StorageClass", "Output", 3>>,
+  <<"StorageClass", "Workgroup", 4>>, <<"StorageClass", "CrossWorkgroup", 5>>, <<"StorageClass", "Private", 6>>, <<"StorageClass", "Function", 7>>,
+  <<"StorageClass", "Generic", 8>>, <<"StorageClass", "PushConstant", 9>>, <<"StorageClass", "AtomicCounter", 10>>, <<"StorageClass", "Image", 11>>,
+  <<"StorageClass", "StorageBuffer", 12>>,
+  <<"Dim", "Dim1D", 0>>, <<"Dim", "Dim2D", 1>>, <<"Dim", "Dim3D", 2>>, <<"Dim", "DimCube", 3>>, <<"Dim", "DimRect", 4>>, <<"Dim", "DimBuffer", 5>>,
+  <<"Dim", "DimSubpassData", 6>>,
+  <<"SamplerAddressingMode", "None", 0>>, <<"SamplerAddressingMode", "ClampToEdge", 1>>, <<"SamplerAddressingMode", "Clamp", 2>>,
+  <<"SamplerAddressingMode", "Repeat", 3>>, <<"SamplerAddressingMode", "RepeatMirrored", 4>>,
+  <<"SamplerFilterMode", "Nearest", 0>>, <<"SamplerFilterMode", "Linear", 1>>,
+  <<"FPRoundingMode", "RTE", 0>>, <<"FPRoundingMode", "RTZ", 1>>, <<"FPRoundingMode", "RTP", 2>>, <<"FPRoundingMode", "RTN", 3>>,
+  <<"LinkageType", "Export", 0>>, <<"LinkageType", "Import", 1>>,
+  <<"AccessQualifier", "ReadOnly", 0>>, <<"AccessQualifier", "WriteOnly", 1>>, <<"AccessQualifier", "ReadWrite", 2>>,
+  <<"FunctionParameterAttribute", "Zext", 0>>, <<"FunctionParameterAttribute", "Sext", 1>>, <<"FunctionParameterAttribute", "ByVal", 2>>,
+  <<"FunctionParameterAttribute", "Sret", 3>>, <<"FunctionParameterAttribute", "NoAlias", 4>>, <<"FunctionParameterAttribute", "NoCapture", 5>>,
+  <<"FunctionParameterAttribute", "NoWrite", 6>>, <<"FunctionParameterAttribute", "NoReadWrite", 7>>,
+  <<"Decoration", "RelaxedPrecision", 0>>, <<"Decoration", "SpecId", 1>>, <<"Decoration", "Block", 2>>, <<"Decoration", "BufferBlock", 3>>,
+  <<"Decoration", "RowMajor", 4>>, <<"Decoration", "ColMajor", 5>>, <<"Decoration", "ArrayStride", 6>>, <<"Decoration", "MatrixStride", 7>>,
+  <<"Decoration", "BuiltIn", 11>>, <<"Decoration", "NoPerspective", 13>>, <<"Decoration", "Flat", 14>>, <<"Decoration", "Patch", 15>>,
+  <<"Decoration", "Centroid", 16>>, <<"Decoration", "Sample", 17>>, <<"Decoration", "Invariant", 18>>, <<"Decoration", "Restrict", 19>>,
+  <<"Decoration", "Aliased", 20>>, <<"Decoration", "Volatile", 21>>, <<"Decoration", "Constant", 22>>, <<"Decoration", "Coherent", 23>>,
+  <<"Decoration", "NonWritable", 24>>, <<"Decoration", "NonReadable", 25>>, <<"Decoration", "Uniform", 26>>, <<"Decoration", "Location", 30>>,
+  <<"Decoration", "Component", 31>>, <<"Decoration", "Index", 32>>, <<"Decoration", "Binding", 33>>, <<"Decoration", "DescriptorSet", 34>>,
+  <<"Decoration", "Offset", 35>>, <<"Decoration", "XfbBuffer", 36>>, <<"Decoration", "XfbStride", 37>>, <<"Decoration", "FuncParamAttr", 38>>,
+  <<"Decoration", "FPRoundingMode", 39>>, <<"Decoration", "FPFastMathMode", 40>>, <<"Decoration", "LinkageAttributes", 41>>,
+  <<"Decoration", "NoContraction", 42>>, <<"Decoration", "InputAttachmentIndex", 43>>, <<"Decoration", "Alignment", 44>>,
+  <<"BuiltIn", "Position", 0>>, <<"BuiltIn", "PointSize", 1>>, <<"BuiltIn", "ClipDistance", 3>>, <<"BuiltIn", "CullDistance", 4>>,
+  <<"BuiltIn", "VertexId", 5>>, <<"BuiltIn", "InstanceId", 6>>, <<"BuiltIn", "PrimitiveId", 7>>, <<"BuiltIn", "InvocationId", 8>>,
+  <<"BuiltIn", "Layer", 9>>, <<"BuiltIn", "ViewportIndex", 10>>, <<"BuiltIn", "FragCoord", 15>>, <<"BuiltIn", "PointCoord", 16>>,
+  <<"BuiltIn", "FrontFacing", 17>>, <<"BuiltIn", "SampleId", 18>>, <<"BuiltIn", "FragDepth", 22>>, <<"BuiltIn", "NumWorkgroups", 24>>,
+  <<"BuiltIn", "WorkgroupSize", 25>>, <<"BuiltIn", "WorkgroupId", 26>>, <<"BuiltIn", "LocalInvocationId", 27>>,
+  <<"BuiltIn", "GlobalInvocationId", 28>>, <<"BuiltIn", "LocalInvocationIndex", 29>>,
+  <<"Scope", "CrossDevice", 0>>, <<"Scope", "Device", 1>>, <<"Scope", "Workgroup", 2>>, <<"Scope", "Subgroup", 3>>, <<"Scope", "Invocation", 4>>,
+  <<"GroupOperation", "Reduce", 0>>, <<"GroupOperation", "InclusiveScan", 1>>, <<"GroupOperation", "ExclusiveScan", 2>>,
+  <<"KernelEnqueueFlags", "NoWait", 0>>, <<"KernelEnqueueFlags", "WaitKernel", 1>>, <<"KernelEnqueueFlags", "WaitWorkGroup", 2>>,
+  <<"Capability", "Matrix", 0>>, <<"Capability", "Shader", 1>>, <<"Capability", "Geometry", 2>>, <<"Capability", "Tessellation", 3>>,
+  <<"Capability", "Addresses", 4>>, <<"Capability", "Linkage", 5>>, <<"Capability", "Kernel", 6>>, <<"Capability", "Vector16", 7>>,
+  <<"Capability", "Float16Buffer", 8>>, <<"Capability", "Float16", 9>>, <<"Capability", "Float64", 10>>, <<"Capability", "Int64", 11>>,
+  <<"Capability", "Int64Atomics", 12>>, <<"Capability", "ImageBasic", 13>>, <<"Capability", "Int16", 22>>, <<"Capability", "Int8", 39>>,
+  <<"Capability", "VulkanMemoryModel", 5345>>,
+  <<"Op", "Nop", 0>>, <<"Op", "TypeInt", 21>>, <<"Op", "Constant", 43>>, <<"Op", "Function", 54>>, <<"Op", "Load", 61>>, <<"Op", "IAdd", 128>>,
+  <<"Op", "Label", 248>>, <<"Op", "Return", 253>>, <<"Op", "ExecutionModeId", 331>>, <<"Op", "TerminateInvocation", 4416>>,
+  <<"GLOp", "Round", 1>>, <<"GLOp", "FAbs", 4>>, <<"GLOp", "Sin", 13>>, <<"GLOp", "Pow", 26>>, <<"GLOp", "Sqrt", 31>>, <<"GLOp", "FMin", 37>>,
+  <<"GLOp", "FMax", 40>>, <<"GLOp", "FClamp", 43>>, <<"GLOp", "Length", 66>>, <<"GLOp", "Normalize", 69>>, <<"GLOp", "NClamp", 81>> }
+
+MaskAnchors == {
+  <<"ImageOperands", "BIAS", 1>>, <<"ImageOperands", "LOD", 2>>, <<"ImageOperands", "GRAD", 4>>, <<"ImageOperands", "CONST_OFFSET", 8>>,
+  <<"ImageOperands", "OFFSET", 16>>, <<"ImageOperands", "CONST_OFFSETS", 32>>, <<"ImageOperands", "SAMPLE", 64>>, <<"ImageOperands", "MIN_LOD", 128>>,
+  <<"FPFastMathMode", "NOT_NAN", 1>>, <<"FPFastMathMode", "NOT_INF", 2>>, <<"FPFastMathMode", "NSZ", 4>>, <<"FPFastMathMode", "ALLOW_RECIP", 8>>,
+  <<"FPFastMathMode", "FAST", 16>>,
+  <<"SelectionControl", "FLATTEN", 1>>, <<"SelectionControl", "DONT_FLATTEN", 2>>,
+  <<"LoopControl", "UNROLL", 1>>, <<"LoopControl", "DONT_UNROLL", 2>>, <<"LoopControl", "DEPENDENCY_INFINITE", 4>>, <<"LoopControl", "DEPENDENCY_LENGTH", 8>>,
+  <<"FunctionControl", "INLINE", 1>>, <<"FunctionControl", "DONT_INLINE", 2>>, <<"FunctionControl", "PURE", 4>>, <<"FunctionControl", "CONST", 8>>,
+  <<"MemorySemantics", "ACQUIRE", 2>>, <<"MemorySemantics", "RELEASE", 4>>, <<"MemorySemantics", "ACQUIRE_RELEASE", 8>>,
+  <<"MemorySemantics", "SEQUENTIALLY_CONSISTENT", 16>>, <<"MemorySemantics", "UNIFORM_MEMORY", 64>>, <<"MemorySemantics", "WORKGROUP_MEMORY", 256>>,
+  <<"MemoryAccess", "VOLATILE", 1>>, <<"MemoryAccess", "ALIGNED", 2>>, <<"MemoryAccess", "NONTEMPORAL", 4>>,
+  <<"KernelProfilingInfo", "CMD_EXEC_TIME", 1>> }
 
 AllListedNames == TypeNames \cup ConstantNames \cup AnnotationNames \cup LocationDebugNames \cup NonLocationDebugNames
                   \cup ModuleProcessedNames \cup TerminatorNames \cup HighCoreNames \cup KhrExtNames \cup ContextDependentNames
